@@ -2,7 +2,9 @@
 
 Proof: lean/VncModel/Props/C11.lean over the model lean/VncModel/Region/Model.lean (a transliteration
 of rfbregion.c's loops on a zipper).
-Tie: correspondence run harness/c11.c (the real sra* functions on a register file of regions) vs
+Tie: T1 (tools/c2lean.py regenerates sraClipRect, sraClipRect2 and sraRgnCreateRect's guard from the C
+source on every run; Props/C11.lean section T1 proves them equal to the model functions) +
+correspondence run harness/c11.c (the real sra* functions on a register file of regions) vs
 Driver/C11.lean, exact comparison of every observation (boolean results + full rectangle list of the
 destination after every region-modifying op).  Direct oracle (inside the harness, independent of
 the Lean model): every op is re-done as bitmap set algebra on a coordinate-compressed grid and the
@@ -28,6 +30,7 @@ from .. import common
 
 PROPS_MOD = "VncModel.Props.C11"
 EXTRA_TARGETS = ["drv_c11"]
+GEN = ["leaf"]      # T1: sraClipRect / sraClipRect2 / sraRgnCreateRect's guard regenerated from the C source
 INT_MAX = 2147483647
 INT_MIN = -2147483648
 
@@ -176,28 +179,48 @@ def enumerate_reps(ctx, h, d, seqs, fails):
     return reps, evals
 
 
-def pair_scripts(A, B, achunk=80, bchunk=46):
-    """phase 2 scripts: all (a, b) in A x B, ops or/and/sub on a copy of a.  B registers r16.., A in r0,
-    scratch r1 (build) and r2 (work)."""
-    scripts = []
-    for bi in range(0, len(B), bchunk):
-        bs = B[bi:bi + bchunk]
-        bl = []
-        for j, s in enumerate(bs):
-            bl += build_lines(s, 16 + j, 1)
-        blk = []
-        for j in range(len(bs)):
-            for op in ("or", "and", "sub"):
-                blk.append("dup r2 r0")
-                blk.append("%s r2 r%d" % (op, 16 + j))
-        blk = "\n".join(blk)
-        for ai in range(0, len(A), achunk):
-            parts = ["\n".join(bl)]
-            for s in A[ai:ai + achunk]:
-                parts.append("\n".join(build_lines(s, 0, 1)))
-                parts.append(blk)
-            scripts.append(("\n".join(parts) + "\n", len(A[ai:ai + achunk]) * len(bs)))
-    return scripts
+def pair_jobs(A, B, achunk=80, bchunk=46):
+    """phase 2 jobs: all (a, b) in A x B, ops or/and/sub on a copy of a.  A job is (A-slice, B-slice);
+    the script is built inside the worker (pair_script) so that millions of pairs never sit in memory."""
+    return [(A[ai:ai + achunk], B[bi:bi + bchunk])
+            for bi in range(0, len(B), bchunk) for ai in range(0, len(A), achunk)]
+
+
+def pair_script(job):
+    """B registers r16.., A in r0, scratch r1 (build) and r2 (work)"""
+    As, Bs = job
+    bl = []
+    for j, s in enumerate(Bs):
+        bl += build_lines(s, 16 + j, 1)
+    blk = []
+    for j in range(len(Bs)):
+        for op in ("or", "and", "sub"):
+            blk.append("dup r2 r0")
+            blk.append("%s r2 r%d" % (op, 16 + j))
+    blk = "\n".join(blk)
+    parts = ["\n".join(bl)]
+    for s in As:
+        parts.append("\n".join(build_lines(s, 0, 1)))
+        parts.append(blk)
+    return "\n".join(parts) + "\n"
+
+
+def run_pairs(ctx, h, d, jobs, what):
+    """-> (pairs run, evaluations, failures, first script+impl for the distribution sample)"""
+    def one(job):
+        sc = pair_script(job)
+        impl, model, f = run_pair(ctx, sc, h, d, what)
+        return len(job[0]) * len(job[1]) if impl else 0, len(impl), f, ((sc, impl) if job is jobs[0] else None)
+    pairs = evals = 0
+    fl, sample = [], None
+    for np_, ne, f, smp in common.pmap(one, jobs):
+        pairs += np_
+        evals += ne
+        if f:
+            fl.append(f)
+        if smp:
+            sample = smp
+    return pairs, evals, fl, sample
 
 
 # ---------------------------------------------------------------------------------- random
@@ -461,18 +484,15 @@ def run(ctx):
         reps, ev = enumerate_reps(ctx, h, d, seqs, fails)
         evals += ev
         R = list(reps.values())
-        scripts = pair_scripts(R, R)
-        res = common.pmap(lambda sc: run_pair(ctx, sc[0], h, d, "region.or/and/sub (exhaustive pairs %dx%d grid, <=%d rectangles)" % (n, n, k)), scripts)
-        pairs = 0
-        for (sc, npairs), (impl, model, f) in zip(scripts, res):
-            pairs += npairs
-            evals += len(impl)
-            if f:
-                note(f)
-                exhaustive_ok = False
+        pairs, ev, fl, sample = run_pairs(ctx, h, d, pair_jobs(R, R),
+                                          "region.or/and/sub (exhaustive pairs %dx%d grid, <=%d rectangles)" % (n, n, k))
+        evals += ev
+        for f in fl:
+            note(f)
+            exhaustive_ok = False
         ne = sum(1 for s in R if s)
-        for (sc, _), (impl, _, _) in zip(scripts[:1], res[:1]):
-            tally(dist, sc, impl, set())
+        if sample:
+            tally(dist, sample[0], sample[1], set())
         dist["exhaustive"]["grid %dx%d, <=%d rects" % (n, n, k)] = {
             "sequences": len(seqs), "distinct_representations": len(R), "ordered_pairs": pairs,
             "op_instances": pairs * 3, "pairs_both_nonempty": ne * ne}
@@ -485,18 +505,18 @@ def run(ctx):
     one4 = [s for s in R4 if len(s) <= 1]
     if quick:
         sub = [R4[i] for i in sorted(ctx.rng.sample(range(len(R4)), min(len(R4), 900)))]
-        scripts = pair_scripts(sub, one4) + pair_scripts(one4, sub)
+        jobs = pair_jobs(sub, one4) + pair_jobs(one4, sub)
         label = "sampled 900 of the <=2-rect representations x all <=1-rect, both orders"
     else:
-        sub = [R4[i] for i in sorted(ctx.rng.sample(range(len(R4)), min(len(R4), 1500)))]
-        scripts = pair_scripts(R4, one4) + pair_scripts(one4, R4) + pair_scripts(sub, sub)
-        label = "all <=2-rect representations x all <=1-rect (both orders) + 1500^2 sampled <=2 x <=2 pairs"
-    res = common.pmap(lambda sc: run_pair(ctx, sc[0], h, d, "region.or/and/sub (4x4 grid pairs)"), scripts)
-    pairs = 0
-    for (sc, npairs), (impl, model, f) in zip(scripts, res):
-        pairs += npairs
-        evals += len(impl)
+        sub = [R4[i] for i in sorted(ctx.rng.sample(range(len(R4)), min(len(R4), 1200)))]
+        jobs = pair_jobs(R4, one4) + pair_jobs(one4, R4) + pair_jobs(sub, sub)
+        label = "all <=2-rect representations x all <=1-rect (both orders) + 1200^2 sampled <=2 x <=2 pairs"
+    pairs, ev, fl, _ = run_pairs(ctx, h, d, jobs, "region.or/and/sub (4x4 grid pairs)")
+    evals += ev
+    for f in fl:
         note(f)
+        if not quick:
+            exhaustive_ok = False
     dist["exhaustive"]["grid 4x4"] = {"sequences": len(seqs4), "distinct_representations": len(R4),
                                       "pairs_run": pairs, "op_instances": pairs * 3, "selection": label}
     ex_nontriv = sum(v for k, v in dist["exhaustive"].items() if k.startswith("nontrivial_"))
